@@ -410,11 +410,11 @@ def finish(pid, ev, out_lines, violations, machinery):
         shown += 1
     if len(violations) > 10:
         print(f"... {len(violations) - 10} more violations (replays saved)")
-    if machinery:
-        for m in machinery:
-            print("MACHINERY-FAILURE:", m)
-        return 2
-    return 1 if violations else 0
+    for m in machinery:
+        print("MACHINERY-FAILURE:", m)
+    if violations:
+        return 1
+    return 2 if machinery else 0
 
 
 def replay(pid, path):
